@@ -96,18 +96,6 @@ func (r *Reader) validate() error {
 		}
 	}
 
-	// Check for at least one slide
-	hasSlide := false
-	for name := range fileMap {
-		if strings.HasPrefix(name, "ppt/slides/slide") && strings.HasSuffix(name, ".xml") {
-			hasSlide = true
-			break
-		}
-	}
-	if !hasSlide {
-		return fmt.Errorf("no slides found in presentation")
-	}
-
 	return nil
 }
 
@@ -150,21 +138,26 @@ func (r *Reader) parsePresentation() error {
 
 // parseSlides parses all slide files.
 func (r *Reader) parseSlides() error {
-	// Find all slide files
-	slideFiles := make([]string, 0)
-	for _, f := range r.zipReader.File {
-		if strings.HasPrefix(f.Name, "ppt/slides/slide") && strings.HasSuffix(f.Name, ".xml") {
-			// Exclude relationship files
-			if !strings.Contains(f.Name, "_rels") {
-				slideFiles = append(slideFiles, f.Name)
+	// The presentation declares its slides, in order, in sldIdLst; each entry
+	// names a relationship whose target is the slide part
+	slideFiles := r.declaredSlideFiles()
+
+	if len(slideFiles) == 0 {
+		// No usable declaration: fall back to the slide files in the archive
+		for _, f := range r.zipReader.File {
+			if strings.HasPrefix(f.Name, "ppt/slides/slide") && strings.HasSuffix(f.Name, ".xml") {
+				// Exclude relationship files
+				if !strings.Contains(f.Name, "_rels") {
+					slideFiles = append(slideFiles, f.Name)
+				}
 			}
 		}
-	}
 
-	// Sort slides by number
-	sort.Slice(slideFiles, func(i, j int) bool {
-		return extractSlideNumber(slideFiles[i]) < extractSlideNumber(slideFiles[j])
-	})
+		// Sort slides by number
+		sort.Slice(slideFiles, func(i, j int) bool {
+			return extractSlideNumber(slideFiles[i]) < extractSlideNumber(slideFiles[j])
+		})
+	}
 
 	r.slides = make([]*Slide, 0, len(slideFiles))
 
@@ -188,6 +181,34 @@ func (r *Reader) parseSlides() error {
 	}
 
 	return nil
+}
+
+// declaredSlideFiles returns the slide part names in the order of the
+// presentation's slide list, resolved through the presentation relationships.
+func (r *Reader) declaredSlideFiles() []string {
+	if r.presentation == nil || r.presentation.SlideIdList == nil || r.presRels == nil {
+		return nil
+	}
+
+	targets := make(map[string]string)
+	for _, rel := range r.presRels.Relationship {
+		targets[rel.ID] = rel.Target
+	}
+
+	var files []string
+	for _, sld := range r.presentation.SlideIdList.SlideId {
+		target, ok := targets[sld.RID]
+		if !ok || target == "" {
+			continue
+		}
+		// Targets are relative to ppt/ unless they start with a slash
+		name := path.Clean("ppt/" + target)
+		if strings.HasPrefix(target, "/") {
+			name = strings.TrimPrefix(path.Clean(target), "/")
+		}
+		files = append(files, name)
+	}
+	return files
 }
 
 // extractSlideNumber extracts the slide number from a path like "ppt/slides/slide1.xml"
